@@ -161,7 +161,7 @@ def handleE2E {K V P H M Pat} [DecidableEq K] [DecidableEq V] [DecidableEq P]
   -- fires, this build is outside the region the theorem covers: search the dumped automaton
   -- (model traversal, which the RUN stage ties to the implementation) for a failing host.
   let mut guardHit := false
-  match Automaton.buildT dom.toTree dom.D.req FUEL inputs evs with
+  match Automaton.buildTD dom.toTree dom.D.req FUEL inputs evs with
   | .ok _ => pure ()
   | .error _ =>
     guardHit := true
